@@ -142,17 +142,28 @@ pub fn plan(p: u32, tier: &str) -> Vec<Run> {
         x.name = format!("late3xu-OE-k{}", k);
         x
     };
+    // 6-job late family, Output/Ephemeral slots: build, x changes with every fault, then the resume
+    let late3f = || {
+        let mut x = late("late3x-OE-k1+follow", true);
+        x.edit_bound = Some(1);
+        x.follow = true;
+        x
+    };
     let eph_shapes = ["late-requirement", "E-E-O+A", "E-E-E-O+A", "E-E-O+A-mid", "E-O-E-O"];
     match p {
         1 => {
             add(s3(true), families::slots(3));
             add(s4(false), families::slots(4));
             add(s4d2ff(), families::slots(4));
+            add(late3f(), families::late3x_oe());
             add(late("latepair", true), families::late_pair());
             add(late("bigshapes", true), families::big_shapes());
             add(late("ephtrees", true), families::eph_trees());
             add(late("ephtrees3", true), families::eph_trees3());
             add(chains(true), families::chains(6));
+            let mut cm = chains(true);
+            cm.name = "chainsm4".into();
+            add(cm, families::chains_multi(4, 2));
             let mut ig = s("S3D2-ignore", 2, m);
             ig.faults = vec![true, false];
             add(ig, families::slots_ignore(3));
@@ -164,6 +175,9 @@ pub fn plan(p: u32, tier: &str) -> Vec<Run> {
             d43.edit_bound = Some(1);
             add(d43, families::slots(4));
             if thorough {
+                let mut l3f = late3f();
+                l3f.name = "late3x-k1+follow".into();
+                add(l3f, families::late_gadget(3, true));
                 // 4 slots: build, one edit with every fault, then the resume / no-op evaluation
                 let mut f4 = s("S4D2-k1-ff+follow", 2, m);
                 f4.edit_bound = Some(1);
@@ -195,6 +209,7 @@ pub fn plan(p: u32, tier: &str) -> Vec<Run> {
             add(s3(false), families::slots(3));
             add(s4(false), families::slots(4));
             add(s4d2ff(), families::slots(4));
+            add(late3f(), families::late3x_oe());
             add(deep3("S3D4-ff", 4, vec![false; 4]), families::slots(3));
             add(deep3("S3D3-f010", 3, vec![false, true, false]), families::slots(3));
             add(late("late2x", true), families::late_gadget(2, true));
@@ -204,8 +219,14 @@ pub fn plan(p: u32, tier: &str) -> Vec<Run> {
             add(late("ephtrees", true), families::eph_trees());
             add(late("ephtrees3", true), families::eph_trees3());
             add(chains(true), families::chains(6));
+            let mut cm = chains(true);
+            cm.name = "chainsm4".into();
+            add(cm, families::chains_multi(4, 2));
             add(shapes_spec("eph-shapes-D2", 2, false), shapes_named(&eph_shapes));
             if thorough {
+                let mut l3f = late3f();
+                l3f.name = "late3x-k1+follow".into();
+                add(l3f, families::late_gadget(3, true));
                 let mut l3n = late("late3xun-OE-k1", true);
                 l3n.edit_bound = Some(1);
                 add(l3n, families::late3xun_oe());
@@ -248,12 +269,16 @@ pub fn plan(p: u32, tier: &str) -> Vec<Run> {
             add(s3(true), families::slots(3));
             add(s4(false), families::slots(4));
             add(s4d2ff(), families::slots(4));
+            add(late3f(), families::late3x_oe());
             add(late("late2x", true), families::late_gadget(2, true));
             add(late("latepair", true), families::late_pair());
             add(late("bigshapes", true), families::big_shapes());
             add(late("ephtrees", true), families::eph_trees());
             add(late("ephtrees3", true), families::eph_trees3());
             add(chains(true), families::chains(6));
+            let mut cm = chains(true);
+            cm.name = "chainsm4".into();
+            add(cm, families::chains_multi(4, 2));
             add(rename("rename-prod", Conv::Parts, Cmp::Prod), families::rename_opts(true, Kind::O, false));
             add(rename("rename-test", Conv::JobIds, Cmp::Plain), families::rename_opts(false, Kind::O, false));
             add(noise("S3D2-noise", 2, false, false), families::slots(3));
@@ -288,6 +313,9 @@ pub fn plan(p: u32, tier: &str) -> Vec<Run> {
                 add(ig, families::slots_ignore(3));
             }
             if thorough {
+                let mut l3f = late3f();
+                l3f.name = "late3x-k1+follow".into();
+                add(l3f, families::late_gadget(3, true));
                 // 4 slots: build, one edit with every fault, then the resume / no-op evaluation
                 let mut f4 = s("S4D2-k1-ff+follow", 2, m);
                 f4.edit_bound = Some(1);
@@ -330,6 +358,9 @@ pub fn plan(p: u32, tier: &str) -> Vec<Run> {
             add(late("ephtrees", true), families::eph_trees());
             add(late("ephtrees3", true), families::eph_trees3());
             add(chains(true), families::chains(6));
+            let mut cm = chains(true);
+            cm.name = "chainsm4".into();
+            add(cm, families::chains_multi(4, 2));
             let mut o = s("S3D2-orders", 2, m);
             o.orders = Orders::AllNodes;
             add(o, families::slots(3));
@@ -396,6 +427,9 @@ pub fn plan(p: u32, tier: &str) -> Vec<Run> {
             add(late("ephtrees", true), families::eph_trees());
             add(late("ephtrees3", true), families::eph_trees3());
             add(chains(true), families::chains(6));
+            let mut cm = chains(true);
+            cm.name = "chainsm4".into();
+            add(cm, families::chains_multi(4, 2));
             add(shapes_spec("shapes-D2", 2, false), families::shapes(true));
             add(rename("rename-prod", Conv::Parts, Cmp::Prod), families::rename_opts(false, Kind::O, false));
             if thorough {
@@ -455,6 +489,9 @@ pub fn plan(p: u32, tier: &str) -> Vec<Run> {
             add(late("ephtrees", true), families::eph_trees());
             add(late("ephtrees3", true), families::eph_trees3());
             add(chains(true), families::chains(6));
+            let mut cm = chains(true);
+            cm.name = "chainsm4".into();
+            add(cm, families::chains_multi(4, 2));
             add(s("S3D2-volatile", 2, m), families::slots_volatile(3));
             add(shapes_spec("shapes-D2", 2, false), families::shapes(true));
             if thorough {
@@ -497,6 +534,7 @@ pub fn plan(p: u32, tier: &str) -> Vec<Run> {
         8 | 9 => {
             add(s3(true), families::slots(3));
             add(s4(true), families::slots(4));
+            add(late3f(), families::late3x_oe());
             if p == 9 {
                 // with the graphs that lack one free slot: the interrupted evaluation may add a consumer
                 let mut l2 = late("late2x+removals+follow", true);
@@ -515,6 +553,9 @@ pub fn plan(p: u32, tier: &str) -> Vec<Run> {
                 add(v, families::slots_volatile(3));
             }
             if thorough {
+                let mut l3f = late3f();
+                l3f.name = "late3x-k1+follow".into();
+                add(l3f, families::late_gadget(3, true));
                 // 4 slots: build, one edit with every fault, then the resume / no-op evaluation
                 let mut f4 = s("S4D2-k1-ff+follow", 2, m);
                 f4.edit_bound = Some(1);
@@ -554,6 +595,9 @@ pub fn plan(p: u32, tier: &str) -> Vec<Run> {
             add(late("ephtrees", true), families::eph_trees());
             add(late("ephtrees3", true), families::eph_trees3());
             add(chains(true), families::chains(6));
+            let mut cm = chains(true);
+            cm.name = "chainsm4".into();
+            add(cm, families::chains_multi(4, 2));
             add(shapes_spec("shapes-D1", 1, false), families::shapes(true));
             if thorough {
                 let mut ks = s("kindswap3-D2", 2, m);
@@ -571,12 +615,16 @@ pub fn plan(p: u32, tier: &str) -> Vec<Run> {
             add(s3(true), families::slots(3));
             add(s4(false), families::slots(4));
             add(s4d2ff(), families::slots(4));
+            add(late3f(), families::late3x_oe());
             add(late("late2x+removals", true), families::with_slot_removals(families::late_gadget_full(2, true, true, None, false)));
             add(deep3("S3D4-ff", 4, vec![false; 4]), families::slots(3));
             add(deep3("S3D3-f010", 3, vec![false, true, false]), families::slots(3));
             add(rename("rename-prod", Conv::Parts, Cmp::Prod), families::rename_opts(false, Kind::O, false));
             add(noise("S3D2-noise", 2, false, false), families::slots(3));
             if thorough {
+                let mut l3f = late3f();
+                l3f.name = "late3x-k1+follow".into();
+                add(l3f, families::late_gadget(3, true));
                 // 4 slots: build, one edit with every fault, then the resume / no-op evaluation
                 let mut f4 = s("S4D2-k1-ff+follow", 2, m);
                 f4.edit_bound = Some(1);
@@ -599,6 +647,7 @@ pub fn plan(p: u32, tier: &str) -> Vec<Run> {
         12 => {
             add(s3(true), families::slots(3));
             add(s4(true), families::slots(4));
+            add(late3f(), families::late3x_oe());
             add(noise("S3D2-noise+follow", 2, true, false), families::slots(3));
             let mut mono = noise("S3D2-mono+follow", 2, true, false);
             mono.cmp = Cmp::Mono;
@@ -612,6 +661,9 @@ pub fn plan(p: u32, tier: &str) -> Vec<Run> {
             rn.follow = true;
             add(rn, families::rename_opts(false, Kind::O, false));
             if thorough {
+                let mut l3f = late3f();
+                l3f.name = "late3x-k1+follow".into();
+                add(l3f, families::late_gadget(3, true));
                 // 4 slots: build, one edit with every fault, then the resume / no-op evaluation
                 let mut f4 = s("S4D2-k1-ff+follow", 2, m);
                 f4.edit_bound = Some(1);
@@ -646,6 +698,9 @@ pub fn plan(p: u32, tier: &str) -> Vec<Run> {
             add(late("ephtrees", true), families::eph_trees());
             add(late("ephtrees3", true), families::eph_trees3());
             add(chains(true), families::chains(6));
+            let mut cm = chains(true);
+            cm.name = "chainsm4".into();
+            add(cm, families::chains_multi(4, 2));
             add(shapes_spec("shapes-D2", 2, false), families::shapes(true));
             if thorough {
                 let mut l3n = late("late3xun-OE-k1", true);
@@ -709,6 +764,9 @@ pub fn plan(p: u32, tier: &str) -> Vec<Run> {
             add(few(late("ephtrees-ff-orders-few", false)), families::eph_trees());
             add(few(late("ephtrees3-ff-orders-few", false)), families::eph_trees3());
             add(few(chains(false)), families::chains(6));
+            let mut cm = few(chains(false));
+            cm.name = "chainsm4-ff".into();
+            add(cm, families::chains_multi(4, 2));
             if thorough {
                 let mut oa = s("S3D2-orders-all", 2, m);
                 oa.orders = Orders::All;
@@ -787,6 +845,9 @@ pub fn plan(p: u32, tier: &str) -> Vec<Run> {
             add(late("ephtrees", true), families::eph_trees());
             add(late("ephtrees3", true), families::eph_trees3());
             add(chains(true), families::chains(6));
+            let mut cm = chains(true);
+            cm.name = "chainsm4".into();
+            add(cm, families::chains_multi(4, 2));
             add(s("S3D2-volatile", 2, m), families::slots_volatile(3));
             add(shapes_spec("shapes-D2", 2, false), families::shapes(true));
             if thorough {
@@ -1215,10 +1276,14 @@ pub fn cmd_run(args: &[String]) -> i32 {
         "late3xu-OOO" => families::late_gadget_opts(3, true, false, Some(vec![Kind::O, Kind::O, Kind::O])),
         "late3xu" => families::late_gadget_opts(3, true, false, None),
         "late3xu-OE" => families::late3xu_oe(),
+        "late3x-OE" => families::late3x_oe(),
         "bigshapes" => families::big_shapes(),
         "latepair" => families::late_pair(),
         "ephtrees" => families::eph_trees(),
         "ephtrees3" => families::eph_trees3(),
+        "chainsm2" => families::chains_multi(2, 3),
+        "chainsm3" => families::chains_multi(3, 2),
+        "chainsm4" => families::chains_multi(4, 2),
         "chains5" => families::chains(5),
         "chains6" => families::chains(6),
         _ => {
